@@ -419,13 +419,13 @@ pub fn run(prop: &'static str, tier: Tier, seed: u64) -> i32 {
             return 2;
         }
     };
+    if let Err(e) = props::self_check(prop) {
+        eprintln!("machinery error: self-check failed: {}", e);
+        return 2;
+    }
     let spaces = props::spaces(prop, tier, seed);
     if spaces.is_empty() {
         eprintln!("machinery error: property {} has no spaces for tier {}", prop, tier.name());
-        return 2;
-    }
-    if let Err(e) = props::self_check(prop) {
-        eprintln!("machinery error: self-check failed: {}", e);
         return 2;
     }
     let mut jobs: VecDeque<(usize, u64)> = VecDeque::new();
